@@ -88,3 +88,10 @@ Theorem C06_width_every_text : forall (C : Classifier) text w sep b,
   wrap text w sep = Ok b -> Forall (fun l => glen l <= Z.max w 2) (b_lines b).
 Proof. intros C. exact wrap_width_all. Qed.
 Print Assumptions C06_width_every_text.
+
+(* ... and appending never reduces the number of clusters (the boundaries inside the first text
+   depend only on what precedes them); prepending can: U+1F600 in front of ZWJ U+1F600 ZWJ U+1F600
+   makes one cluster of two *)
+Theorem C06_clusters_monotone_left : forall (C : Classifier) a b, glen a <= glen (a ++ b).
+Proof. intros C. exact glen_app_ge_left. Qed.
+Print Assumptions C06_clusters_monotone_left.
